@@ -92,8 +92,42 @@ out:
     ZSTD_seekable_freeCStream(zcs); free(arch); free(x); free(cOff); free(cSz); free(dOff); free(dSz);
 }
 
+/* frames larger than one block: 300 KB of content, maxFrameSize {default, 200000, 65536}, checksum on / off, the whole content offered in one call or in
+ * 50 000-byte pieces, output room 1000 bytes or ample; every frame read back through the seekable reader (whole frames and ranges across frame edges) */
+static void body_bigframes(void) {
+    static const unsigned MFS[] = {0, 200000, 65536}; unsigned mfs = MFS[vx_choose(3)]; int ck = vx_choose(2), whole = vx_choose(2), small = vx_choose(2), access = vx_choose(3), tex = vx_choose(2);
+    vx_label("bigframes maxFrame=%u ck=%d inputWhole=%d outRoom=%d access=%d texture%d", mfs, ck, whole, small ? 1000 : 0, access, tex);
+    size_t n = 300000, cap = ZSTD_compressBound(n) + 65536, alen = 0; u8* x = (u8*)malloc(n); u8* arch = (u8*)malloc(cap); u8* o = (u8*)malloc(n + 16);
+    if (tex) fill_noise(x, n, 5); else { fill_text(x, n, 4); fill_noise(x + 100000, 30000, 6); }
+    ZSTD_seekable_CStream* zcs = ZSTD_seekable_createCStream(); size_t e = ZSTD_seekable_initCStream(zcs, 1, ck, mfs);
+    if (ZSTD_isError(e)) { vx_fail("initCStream: %s", ZSTD_getErrorName(e)); goto out; }
+    {   size_t pos = 0; long guard = 0;
+        while (pos < n) { size_t give = whole ? n - pos : (n - pos > 50000 ? 50000 : n - pos); ZSTD_inBuffer in = { x + pos, give, 0 };
+            while (in.pos < in.size) { size_t room = small ? 1000 : cap - alen; if (room > cap - alen) room = cap - alen; ZSTD_outBuffer out = { arch + alen, room, 0 }; size_t r = ZSTD_seekable_compressStream(zcs, &out, &in); alen += out.pos;
+                if (ZSTD_isError(r) || ++guard > 2000000 || alen + 2000 > cap) { vx_fail("compressStream: %s", ZSTD_isError(r) ? ZSTD_getErrorName(r) : "no end"); goto out; } }
+            pos += give; }
+        size_t r = 1; while (r) { size_t room = small ? 1000 : cap - alen; ZSTD_outBuffer out = { arch + alen, room, 0 }; r = ZSTD_seekable_endStream(zcs, &out); alen += out.pos; if (ZSTD_isError(r) || ++guard > 2000000) { vx_fail("endStream: %s", ZSTD_isError(r) ? ZSTD_getErrorName(r) : "no end"); goto out; } } }
+    {   size_t r = ZSTD_decompress(o, n + 16, arch, alen); if (ZSTD_isError(r) || r != n || memcmp(o, x, n)) { vx_fail("regular decoder does not regenerate the content from the archive"); goto out; } }
+    {   FILE* fp; cf_t cf; memset(&cf, 0, sizeof cf); size_t err; ZSTD_seekable* zs = open_reader(access, arch, alen, &fp, &cf, &err);
+        if (ZSTD_isError(err)) vx_fail("reader init fails on a valid archive: %s", ZSTD_getErrorName(err));
+        else {
+            unsigned nf = ZSTD_seekable_getNumFrames(zs); size_t tot = 0;
+            for (unsigned i = 0; i < nf && !vx_failed; i++) { size_t ds = ZSTD_seekable_getFrameDecompressedSize(zs, i); if (ZSTD_isError(ds) || tot + ds > n) { vx_fail("frame %u: bad decompressed size", i); break; }
+                memset(o, 0xEE, ds + 1); size_t r = ZSTD_seekable_decompressFrame(zs, o, ds, i); if (ZSTD_isError(r)) vx_fail("decompressFrame(%u) of an intact archive fails: %s", i, ZSTD_getErrorName(r)); else if (r != ds || memcmp(o, x + tot, ds) || o[ds] != 0xEE) vx_fail("decompressFrame(%u) returns wrong bytes", i); tot += ds; }
+            if (!vx_failed && tot != n) vx_fail("frames hold %zu bytes, the content has %zu", tot, n);
+            static const size_t AT[][2] = {{0, 1}, {0, 70000}, {65530, 12}, {131070, 5}, {199990, 20}, {150000, 150000}, {299999, 1}, {1, 299999}};
+            for (int a = 0; a < 8 && !vx_failed; a++) { memset(o, 0xEE, AT[a][1] + 1); size_t r = ZSTD_seekable_decompress(zs, o, AT[a][1], AT[a][0]);
+                if (ZSTD_isError(r)) vx_fail("read(offset %zu, length %zu) of an intact archive fails: %s", AT[a][0], AT[a][1], ZSTD_getErrorName(r)); else if (r != AT[a][1] || memcmp(o, x + AT[a][0], AT[a][1]) || o[AT[a][1]] != 0xEE) vx_fail("read(offset %zu, length %zu) returns wrong bytes", AT[a][0], AT[a][1]); }
+        }
+        close_reader(zs, fp); }
+    vx_obs_u64(vx_hash(arch, alen > 4096 ? 4096 : alen)); vx_nontrivial(); vx_stat_add("archives_built", 1);
+out:
+    ZSTD_seekable_freeCStream(zcs); free(arch); free(x); free(o);
+}
+
 static void body(void) {
     if (g_corrupt == 2) { body_bigtable(); return; }
+    if (g_corrupt == 3) { body_bigframes(); return; }
     /* ---- content and compression history (free choices) ---- */
     int kind = vx_choose(3), n = 1 + vx_choose(3) * 13 + (kind == 2 ? 1 : 0);      /* 1, 14, 27 (+1) */
     static const unsigned MFS[] = {1, 2, 3, 5, 8, 64}; unsigned mfs = MFS[vx_choose(6)]; int ck = vx_choose(2);
